@@ -5,6 +5,16 @@ import json, subprocess
 props = [json.loads(l) for l in open('/verif/properties.jsonl')]
 
 CLAIMED = {
+ "C10": dict(level="exploration",
+   text="A device with generated handler behaviours (echo, echo late, silent, hold, drop after the first answer) serves 1-4 concurrent multi-round exchanges of an honest controller on planted sessions while an authenticated third peer (the harness, holding that session's keys, acknowledging what it is sent) injects crafted secured messages with arbitrary exchange id / initiator flag / R-A flags (application requests, stand-alone acks, status reports, CloseSession) and unsecured strays for unknown sessions, under a generated poll order. Invariants: a handler only ever sees messages of its own (session, exchange id, role); exchanges are opened only by initiator requests; stand-alone acks and answers to unknown exchanges reach nobody; the controller never gets a foreign response; a probe request after the disturbance is answered; all traffic stops and every exchange slot is free after bounded virtual time (no datagram storm).",
+   note="Head-of-line blocking by the single receive slot (a message for an owned exchange whose owner is busy sending delays everybody for up to one retransmission ladder) is observed and documented, not judged a violation: the message is eventually picked up. Sessions are planted; eviction-driven session loss is covered by C20.",
+   technique="deterministic simulation with crafted authenticated traffic, routing invariants over handler logs + bounded-time no-wedge/no-storm probes",
+   design="3/C10"),
+ "C16": dict(level="exploration",
+   text="Generated TLV trees (all tag forms, integer widths and extremes, floats by bit pattern, strings through every length-field width, nesting to depth 64) are written through five writer APIs and must equal an independent reference encoder written from the specification, decode back to the same tree, and re-encode byte-identically through to_tlv and tlv_iter; 25 derived wire structures round-trip with generated field values; hostile inputs (valid encodings with truncations, length fields replaced by boundary values up to 2^64-1, control bytes replaced, random bytes, enumerated length/control-byte tables) go through eight probes: every accessor returns Ok/Err without panic or overflow, iteration terminates within the input length, every returned slice lies inside the input, formatter output is bounded, every structure's from_tlv is panic-free and re-encodes idempotently.",
+   note="Strict rejection of malformed-but-parseable input (e.g. a tagged end-of-container) is not demanded by the statement and not checked; a libFuzzer target is an additional engine, not the deciding one.",
+   technique="proptest round-trip + differential against reference TLV encoder + structured hostile-bytes probes + enumerated boundary tables",
+   design="3/C16"),
  "C12": dict(level="fault_enumeration",
    text="For each of the three durable counters (global group data counter, event number, ICD check-in counter) generated histories of reservations, restarts, crashes placed before or after each individual store, and failing stores are executed against the real code with a logging in-memory KV store whose contents can be rolled back to any log prefix; the harness is the wire and checks U1 (no value used twice over all boots) and U2 (a covering boundary is stored at the moment of use). Plus an enumerated table of offsets -3..+3 around every epoch edge and the range wrap x {restart, crash before store, crash after store, store fails}.",
    note="Component level: the harness plays Exchange::initiate_group for the group counter (mirroring its store/uncover path); the wire-level ordering U3 through the real initiate_group needs the simulator and is not part of this check. Histories start next to the wrap instead of executing a full counter period.",
